@@ -400,6 +400,15 @@ var checkSeqArith = register("c13.seq", func(c SeqArithCase) *Violation {
 		if o.Panic != "" {
 			return violf("%q on %s panicked: %s", c.Path, c.Doc, o.Panic)
 		}
+		if c.Want == "hard" {
+			// (D51) both operands are evaluated before either is checked: the non-suppressible error of one
+			// operand is the outcome whichever side it stands on, with and without WithSilent
+			os := RunQuery(context.Background(), p, MustDecode(c.Doc, un), exec.WithSilent())
+			if o.Class != EHard || os.Class != EHard {
+				return violf("%q on %s: the operand's non-suppressible error is required with and without WithSilent, got %s and %s", c.Path, c.Doc, o, os)
+			}
+			continue
+		}
 		if c.Want == "error" {
 			if o.Class != ESupp {
 				return violf("%q on %s: a suppressible error is required, got %s", c.Path, c.Doc, o)
@@ -437,6 +446,17 @@ func seqArithCases() []SeqArithCase {
 			SeqArithCase{"$.a " + op + " 0", `{"a":0}`, map[string]string{"+": "[0]", "-": "[0]", "*": "[0]", "/": "error", "%": "error"}[op]},
 			SeqArithCase{"$.a " + op + " 0.0", `{"a":5.5}`, map[string]string{"+": "[11/2]", "-": "[11/2]", "*": "[0]", "/": "error", "%": "error"}[op]},
 		)
+		// x op y and y op x fail alike: an operand that raises a non-suppressible error, next to one that is
+		// not a singleton number
+		for _, bad := range []string{"$nope", `"12".datetime("HH24")`, "$.n.decimal(0)", `"2023-01-01".timestamp_tz()`, "$.n.decimal(2,1001)"} {
+			for _, other := range []string{"$.a", "$.a[*]", "$.missing", "$.s", "$.e", "2"} {
+				out = append(out, SeqArithCase{other + " " + op + " " + bad, `{"a":[1,2],"s":"x","e":[],"n":1}`, "hard"}, SeqArithCase{bad + " " + op + " " + other, `{"a":[1,2],"s":"x","e":[],"n":1}`, "hard"},
+					SeqArithCase{"$ ? (" + other + " " + op + " " + bad + " > 0)", `{"a":[1,2],"s":"x","e":[],"n":1}`, "hard"}, SeqArithCase{"strict " + bad + " " + op + " " + other, `{"a":[1,2],"s":"x","e":[],"n":1}`, "hard"})
+				if other != "$.missing" { // (in strict mode the missing key is the first error)
+					out = append(out, SeqArithCase{"strict " + other + " " + op + " " + bad, `{"a":[1,2],"s":"x","e":[],"n":1}`, "hard"})
+				}
+			}
+		}
 	}
 	out = append(out,
 		SeqArithCase{"-$.a", `{"a":[1,2,3]}`, "[-1 -2 -3]"},
